@@ -67,6 +67,9 @@ theorem slice_zero (xs : List Int) (b : Int) (h0 : 0 ≤ b) (h : b ≤ (xs.lengt
   have : (0 : Int) ≤ 0 ∧ 0 ≤ b ∧ b ≤ (xs.length : Nat) := ⟨by omega, h0, h⟩
   simp [this]
 
+theorem tmod_natCast_emod (n : Nat) (k : Int) : Int.tmod (n : Int) k = (n : Int) % k :=
+  Int.tmod_eq_emod_of_nonneg (by omega)
+
 /-! ### trip counts -/
 
 theorem tripDown_one (a b : Int) : tripDown a b 1 = (a - b).toNat := by
